@@ -122,6 +122,54 @@ func ruleSubjectDelivers() check.Rule {
 						c.OK(key, fd.Pos(), "reaches the observers with the same kind of notification%s", map[bool]string{true: " and empties the observer set", false: ""}[k > 0])
 					}
 				}
+				// every path of NextWithContext disposes of the value before it returns: it is sent on (to the observers or to
+				// the dropped-notification hook) or stored in the field in which this subject keeps values by definition. A
+				// path that parks the value anywhere else (a hidden queue drained by another caller) returns before the value's
+				// consumers have seen it
+				if fd := meths["NextWithContext"]; fd != nil && fd.Body != nil {
+					rvN := recvObj(info, fd)
+					storeFields := map[string]bool{"values": true, "last": true, "value": true, "hasValue": true}
+					disposes := func(nd ast.Node) bool {
+						found := false
+						ast.Inspect(nd, func(x ast.Node) bool {
+							if found {
+								return false
+							}
+							switch y := x.(type) {
+							case *ast.FuncLit:
+								return false
+							case *ast.CallExpr:
+								if id, ok := ast.Unparen(y.Fun).(*ast.Ident); ok && id.Name == "OnDroppedNotification" {
+									found = true
+								}
+								if subjectHelperKind(m, p, y) == "broadcast" {
+									found = true
+								}
+								if name, isObs := m.Obj.ObserverMethods[model.Callee(info, y)]; isObs && notifKind(name) == model.EmitNext {
+									if sel := callSelector(info, y); sel != nil {
+										if id, ok := ast.Unparen(sel.X).(*ast.Ident); !ok || objOf(info, id) != types.Object(rvN) {
+											found = true
+										}
+									}
+								}
+							case *ast.AssignStmt:
+								for _, l := range y.Lhs {
+									if fs := fieldSelOf(info, l, rvN); fs != nil && storeFields[fs.Sel.Name] {
+										found = true
+									}
+								}
+							}
+							return !found
+						})
+						return found
+					}
+					key := fmt.Sprintf("ro.%s.NextWithContext/disposes-on-every-path", tname)
+					if everyPathPasses(fd.Body, disposes) {
+						c.OK(key, fd.Pos(), "every path sends the value on, reports it as dropped, or stores it where this subject keeps values")
+					} else {
+						c.Violation(key, fd.Pos(), "some path of NextWithContext returns without having sent the value on, reported it as dropped, or stored it in the subject's own value field: the value is parked somewhere else and Next returns before its consumers have seen it")
+					}
+				}
 				// a local copy of the single observer is taken before the field is cleared
 				for _, mn := range []string{"ErrorWithContext", "CompleteWithContext"} {
 					fd := meths[mn]
